@@ -158,14 +158,18 @@ static void l4(void) {
 /* L5: full pipeline logger (real default formatter + background channel + recording writer) through AWS_LOGF */
 static struct aws_logger logger;
 static struct aws_log_formatter fmt;
+static char logf_tid[2][AWS_THREAD_ID_T_REPR_BUFSZ + 4]; /* "[<id of the thread that logged message k>]", in the formatter's own spelling */
 static void *logf_fn(void *p) {
     int id = (int)(intptr_t)p;
+    char repr[AWS_THREAD_ID_T_REPR_BUFSZ];
+    if (aws_thread_id_t_to_string(aws_thread_current_thread_id(), repr, sizeof(repr)) == AWS_OP_SUCCESS) snprintf(logf_tid[id], sizeof(logf_tid[id]), "[%s]", repr);
     AWS_LOGF_INFO(AWS_LS_COMMON_GENERAL, "hello from %d", id);
     AWS_LOGF_TRACE(AWS_LS_COMMON_GENERAL, "suppressed %d", id);
     return NULL;
 }
 static void l5(void) {
     setup_common();
+    memset(logf_tid, 0, sizeof(logf_tid));
     struct aws_log_formatter_standard_options fo = {.date_format = AWS_DATE_FORMAT_ISO_8601};
     if (aws_log_formatter_init_default(&fmt, A, &fo)) vs_harness_error("formatter init");
     if (aws_log_channel_init_background(&chan, A, &writer)) vs_harness_error("channel init");
@@ -186,8 +190,15 @@ static void l5(void) {
         size_t n = strlen(seen[i]);
         VS_CHECK(n == seen_len[i] && n > 0 && seen[i][n - 1] == '\n' && strchr(seen[i], '\n') == seen[i] + n - 1, "torn-line", "pipeline line not whole / not newline-terminated: '%s'", v_show(seen[i], n));
         VS_CHECK(strncmp(seen[i], "[INFO] [", 8) == 0, "prefix", "pipeline line lacks its prefix: '%s'", v_show(seen[i], n));
-        if (strstr(seen[i], " - hello from 0\n")) got[0]++;
-        if (strstr(seen[i], " - hello from 1\n")) got[1]++;
+        for (int k = 0; k < 2; ++k) {
+            char tail[32];
+            snprintf(tail, sizeof(tail), " - hello from %d\n", k);
+            if (!strstr(seen[i], tail)) continue;
+            got[k]++;
+            /* "a prefix with level, timestamp, thread id and subject": the id is that of the thread that made the call (added
+             * after a seeded change that turned the formatter's per-thread id cache into a process-wide one) */
+            VS_CHECK(logf_tid[k][0] && strstr(seen[i], logf_tid[k]) != NULL, "thread-id", "the line of thread %d does not carry that thread's id %s: '%s'", k, logf_tid[k], v_show(seen[i], n));
+        }
         VS_CHECK(!strstr(seen[i], "suppressed"), "level-gate", "a TRACE line passed an INFO filter");
     }
     VS_CHECK(got[0] == 1 && got[1] == 1, "lost-line", "pipeline: message of thread 0 seen %d times, of thread 1 %d times", got[0], got[1]);
